@@ -19,6 +19,7 @@ pub struct Cfg {
     pub allow_fail: bool,
     pub c14: bool,
     pub burst: bool,
+    pub reentrant: bool,
     pub nsinks: usize,
 }
 
@@ -116,7 +117,11 @@ pub struct Inner {
     pub name_owner: std::collections::HashMap<String, usize>,
 }
 
+pub type Kicker = Arc<dyn Fn(usize, usize) + Send + Sync>;
+
 pub struct Env {
+    /// set by the graph builder: makes instance (env index, puppet id) emit one datum now
+    pub kicker: Mutex<Option<Kicker>>,
     inner: Mutex<Inner>,
     /// run at the end of a run to break the Arc cycles between harness peers and crate closures
     cleaners: Mutex<Vec<Box<dyn Fn() + Send + Sync>>>,
@@ -170,6 +175,7 @@ impl Env {
             sinks.push(SinkSt::default());
         }
         Arc::new(Env {
+            kicker: Mutex::new(None),
             inner: Mutex::new(Inner {
                 cfg,
                 obs: vec![],
@@ -201,6 +207,7 @@ impl Env {
 
     /// drop everything big and break reference cycles (a run's closures are otherwise never freed)
     pub fn cleanup(&self) {
+        *self.kicker.lock().unwrap_or_else(|e| e.into_inner()) = None;
         let cl: Vec<_> = std::mem::take(&mut *self.cleaners.lock().unwrap_or_else(|e| e.into_inner()));
         for f in cl.iter() {
             f();
